@@ -12,6 +12,7 @@ import PyhamModel.Lemmas.CapstoneWF
 import PyhamModel.Lemmas.Compose
 import PyhamModel.Lemmas.SessionLemmas
 import PyhamModel.Lemmas.HistoryProfile
+import PyhamModel.Lemmas.LeafProfile
 namespace Pyham.Witness
 open Pyham
 
@@ -429,5 +430,13 @@ theorem history_counts_nonzero :
     (simpleEx.fams.map fun f => eventsInto [0, 1] f.1 f.2).sum = 1 ∧
     (elided.fams.map fun f => copiesInto [0, 2] f.1 f.2).sum = 4 ∧
     (elided.fams.map fun f => eventsInto [0, 2] f.1 f.2).sum = 2 := by decide
+
+/-- non-vacuity of `C09_leaf_profile_from_dataset`: in the repository's fixture HUMAN ([0,0,0,1]) declares four genes of
+    which gene 5 is in no family, RATNO declares two of which 43 is in no family; the second witness likewise -/
+theorem leaf_counts_nonzero :
+    simpleTree.isLeafAt [0, 0, 0, 1] = true ∧
+    (simpleEx.declaredAt [0, 0, 0, 1]).length = 4 ∧ simpleEx.unreferencedAt [0, 0, 0, 1] = ["5"] ∧
+    (simpleEx.declaredAt [1, 1, 0, 1]).length = 2 ∧ simpleEx.unreferencedAt [1, 1, 0, 1] = ["43"] ∧
+    (elided.declaredAt [0, 1]).length = 2 ∧ elided.unreferencedAt [0, 1] = ["b9"] := by decide +kernel
 
 end Pyham.Witness
